@@ -135,3 +135,29 @@ Theorem C10_prove_verify_complete_single_key_partial :
     recompute hempty hbranch bits (rev bm) (rev sb) (hash hempty hleaf hbranch nd) = Some (hash hempty hleaf hbranch t) /\
     (nd = E \/ exists k v, nd = L k v).
 Proof. exact @canonical_proof_verifies. Qed.
+
+From LE Require Import SMT.ClaimsTop.
+(* END-TO-END SOUNDNESS against the map, any number of queries.  Trie over keys of kl bytes (8*kl bits), values = byte
+   strings, trie leaf hash = wire leaf hash of the re-packed key (hleaf bits v = hleafb (FromBools bits) v, as in the
+   correspondence instantiation).  If the faithful Verify accepts against the root of a well-formed trie t (every trie
+   reachable by any batch history is well-formed: C10_reachable_tries_wf) then for every (requested key, query) pair:
+   a non-empty value is in the map under the query key; an empty value means the requested key is absent; a query key
+   whose bits differ from the requested key's means the requested key is absent.
+   Hash hypotheses: equality test exact, wire leaf hash and branch hash injective, leaf / branch / empty disjoint. *)
+Theorem C10_verify_sound_against_map :
+  forall (Hsh : Type) (hempty : Hsh) (hleafb : list N -> list N -> Hsh) (hbranch : Hsh -> Hsh -> Hsh)
+         (heqb : Hsh -> Hsh -> bool) (hnull : Hsh -> bool),
+    (forall a b, heqb a b = true -> a = b) ->
+    (forall a b c d, hbranch a b = hbranch c d -> a = c /\ b = d) ->
+    (forall k v k' v', hleafb k v = hleafb k' v' -> k = k' /\ v = v') ->
+    (forall k v a b, hleafb k v <> hbranch a b) ->
+    (forall k v, hleafb k v <> hempty) ->
+    (forall a b, hbranch a b <> hempty) ->
+    forall kl (t : @T (list N)) keys sibs qs,
+      wf (8 * kl) 0 t ->
+      verify hempty hleafb hbranch heqb hnull keys sibs qs (hash hempty (ClaimsTop.hleaf hleafb) hbranch t) kl = VTrue ->
+      forall i k q, nth_error keys i = Some k -> nth_error qs i = Some q ->
+        (q_value q <> [] -> In (to_bools (q_key q), q_value q) (tomap t)) /\
+        (q_value q = [] -> forall v, ~ In (to_bools k, v) (tomap t)) /\
+        (to_bools k <> to_bools (q_key q) -> forall v, ~ In (to_bools k, v) (tomap t)).
+Proof. exact @verify_claims. Qed.
